@@ -8,8 +8,12 @@ ISSUES = ["voteBP", "BPCOUNT", "STAKINGMIN", "GASPRICE", "NAMEPRICE"]
 ERRS = {"ok": "EOk", "init": "EOk", "insufficient": "EInsufficient", "lesstime": "ELessTime", "toosmall": "ETooSmall",
         "muststakevote": "EMustStakeVote", "muststakeunstake": "EMustStakeUnstake", "exceed": "EExceed",
         "payload": "EPayload", "toomany": "ETooMany", "invalidcand": "EInvalidCand",
-        "notsupported": "ENotSupported", "invalidid": "EInvalidId", "toofew": "ETooFew", "panic": "EPanic"}
+        "notsupported": "ENotSupported", "invalidid": "EInvalidId", "toofew": "ETooFew", "panic": "EPanic",
+        # Sync failed after vpr.apply ("abnormal winner"): the model's class for "failed after touching the globals"
+        "abnormal": "EPanic"}
 DELAY = 86400
+# numerals that are numbers for a base-0 / lenient parser but not for SetString(s, 10), and decimals in unusual spellings
+NUMERALS = ["0x3", "0X5", "0b11", "0o7", "1_0", "0x_3", "013", "+0x3", "0e1", "1e1", " 5", "5 ", "٣"]
 BOUNDARY = {72: 2 ** 72, 80: 2 ** 80, 88: 2 ** 88}      # 9|10, 10|11, 11|12 byte amounts
 MAX_AER = 5 * 10 ** 26
 
@@ -77,7 +81,7 @@ def gen_scenario(rng, ver=None, nacc=None, nops=None, twins=False, dao_bias=0.25
         elif r < 0.62 + dao_bias * 0.6:
             iid = rng.choice(["BPCOUNT", "bpcount", "STAKINGMIN", "GASPRICE", "NAMEPRICE", "NOPE"])
             val = rng.choice([["13"], ["3"], ["100"], ["101"], ["0"], ["+7"], ["x"], [], ["5", "6"],
-                              [str(S)], [str(S // 2)], ["1000000000000000000"], ["007"]])
+                              [str(S)], [str(S // 2)], ["1000000000000000000"], ["007"]] + [[x] for x in NUMERALS])
             ops.append({"op": "votedao", "who": who, "id": iid, "val": val})
         elif r < 0.93:
             step = rng.choice([1, 1, 2, DELAY - 2, DELAY - 1, DELAY, DELAY + 1, 2 * DELAY])
@@ -194,6 +198,8 @@ def gen_param_scenario(rng):
     other = {"STAKINGMIN": [10 ** 18, 5 * 10 ** 18, S // 2], "GASPRICE": [6 * 10 ** 10, 1], "NAMEPRICE": [2 * 10 ** 18, 7], "BPCOUNT": [5, 13]}[pid]
     v1 = rng.choice(other)
     v2 = rng.choice([cur, cur, v1, rng.choice(other)])
+    if rng.random() < 0.4:       # a numeral only a lenient parser accepts, cast by the holder of all the stake
+        v1 = rng.choice(NUMERALS)
     accounts = [{"addr": addr(i).hex(), "bal": str(60 * S)} for i in range(4)]
     ops, no = [], 1
     ops += [{"op": "stake", "who": 0, "amt": str(3 * S)}, {"op": "block", "no": 2}]
@@ -747,3 +753,54 @@ def selection_predicates(d):
         if total > 0 and 0 <= r < total and win is not None and p["w"] != win:
             bad.append(("voting reward winner is not the voter whose power interval contains the draw", {"seed": p["seed"], "r": p["r"], "winner": p["w"], "expected": win}))
     return bad
+
+
+# ============================================================================= BP election snapshots
+def gen_bp_scenario(rng, directed=False):
+    """a scripted chain for the real bp.Snapshots: blocks every 50 heights (election reference blocks
+    are the multiples of 100) whose state carries a vote result that changes from block to block;
+    reorganisations to a branch root BELOW an election block that was already connected, with a
+    different tally order on the new branch; restarts.  The chain runs past the height at which the
+    re-elected list takes office (~100 blocks after the election block)."""
+    names = ["a", "b", "c", "d", "e"]
+    tally = lambda: {n: rng.randrange(1, 50) for n in rng.sample(names, rng.randrange(3, 6))}
+    ops, h = [], 0
+    top = rng.choice([500, 600, 700])
+    reorgs = 1 if directed else rng.choice([0, 1, 1, 2])
+    while h < top:
+        h += 50
+        ops.append({"op": "connect", "no": h, "tally": tally()})
+        if rng.random() < 0.1:
+            ops.append({"op": "restart"})
+        if reorgs and h >= 300 and (directed and h in (300, 400) and rng.random() < 0.7 or not directed and rng.random() < 0.25):
+            reorgs -= 1
+            # branch root below the last connected election block
+            last_el = (h // 100) * 100
+            root = rng.choice([x for x in range(50, last_el, 50)][-3:])
+            ops.append({"op": "reorg", "no": root})
+            h = root
+    ops.append({"op": "restart"})
+    return {"bpcount": 3, "ops": ops}
+
+
+def bp_predicates(sc, dumps, fails):
+    """the list in office on the running node is the one a restarted node installs, and — from the
+    bootstrap height on — the top-BPCOUNT ranking of the state of the election reference block
+    (best/100 - 1) * 100 of the CURRENT branch"""
+    gen = dumps[0]["live"]
+    for k, d in enumerate(dumps):
+        op = sc["ops"][k - 1] if k > 0 else {"op": "init"}
+        if d.get("err"):
+            fails.append(("bp engine: " + d["err"], {"scenario": sc, "step": k - 1}))
+        if d["live"] != d["restarted"]:
+            fails.append(("producer list in office on the running node differs from the one a restarted node installs",
+                          {"scenario": sc, "step": k - 1, "op": op, "best": d["best"], "live": d["live"], "restarted": d["restarted"]}))
+        best = d["best"]
+        if best >= 300:
+            ref = (best // 100 - 1) * 100
+            want = d["rankers"].get(str(ref))
+        else:
+            want = gen
+        if want is not None and d["live"] != want:
+            fails.append(("producer list in office is not the ranking of the election reference block on the current branch",
+                          {"scenario": sc, "step": k - 1, "op": op, "best": best, "live": d["live"], "expected": want}))
